@@ -339,7 +339,59 @@ Proof.
     destruct Hc as (sz & ck & ->). cbn [ctrls rc]. split; [now apply strip_first_paged_others|reflexivity].
   - split; [|reflexivity]. unfold others. symmetry. apply filter_all_id. intros x Hx. pose proof (find_none _ _ Ef x Hx) as H. now rewrite H.
 Qed.
+(* ---- F48: a next() call given up while the adapter asks for the next page ----
+   The call has read the final message of the page (stream.res = its result, the receiver gone) and its follow-up request is on its way;
+   nothing of the new page is installed in the stream. [f48]: the page's result is dropped before the follow-up is requested (repair), or
+   is still there (as found). The abandoned request reaches the server, whose cursor moves on; its answer reaches nobody. *)
+Definition abandon_at_switch (f48 : bool) (s : stream) : option stream :=
+  match st s, chan s with
+  | Active, Some ([], r) =>
+      match find_paged (ctrls r), server s with
+      | Some ((_ :: _) as ck), p :: rest =>
+          Some (mkS Active None (if f48 then None else Some r) (saved_params s) (saved_ctrls s) (page_size s) rest
+                    (wire s ++ [mkReq (saved_params s) (saved_ctrls s ++ [CPaged (page_size s) ck])]))
+      | _, _ => None end
+  | _, _ => None end.
+(* the next call on such a stream: the inner stream has no receiver (Ok(None)), the adapter looks at stream.res - nothing there: the end;
+   a page result with a live cookie there: the follow-up goes out once more *)
+Definition next_after_abandon (s : stream) : stream * nres :=
+  match res s with
+  | None => (mkS Done None None (saved_params s) (saved_ctrls s) (page_size s) (server s) (wire s), NNone)
+  | Some r =>
+      match find_paged (ctrls r), server s with
+      | Some ((_ :: _) as ck), p :: rest =>
+          (mkS Active (Some (tl (p_items p), p_result p)) None (saved_params s) (saved_ctrls s) (page_size s) rest
+               (wire s ++ [mkReq (saved_params s) (saved_ctrls s ++ [CPaged (page_size s) ck])]),
+           match p_items p with it :: _ => NSome it | [] => NNone end)
+      | _, _ => (mkS SError None (Some r) (saved_params s) (saved_ctrls s) (page_size s) (server s)
+                     (match find_paged (ctrls r) with Some ((_ :: _) as ck) => wire s ++ [mkReq (saved_params s) (saved_ctrls s ++ [CPaged (page_size s) ck])] | _ => wire s end), NErr)
+      end
+  end.
+(* C10 / C16 after the repair: the stream holds no page result, so finish() is the cancellation and the stream ends without a further request *)
+Theorem c10_abandoned_switch s s' : abandon_at_switch true s = Some s' ->
+  res s' = None /\ snd (fst (finish s')) = cancelled /\
+  fst (next_after_abandon s') = mkS Done None None (saved_params s') (saved_ctrls s') (page_size s') (server s') (wire s') /\ snd (next_after_abandon s') = NNone /\
+  wire (fst (next_after_abandon s')) = wire s'.
+Proof.
+  unfold abandon_at_switch. destruct (st s); try discriminate. destruct (chan s) as [[[|it tl] r]|]; try discriminate.
+  destruct (find_paged (ctrls r)) as [[|c0 ck]|]; try discriminate. destruct (server s) as [|p rest]; [discriminate|].
+  intros [= <-]. repeat split; reflexivity.
+Qed.
+(* as found: one page of one entry and a cookie, a second page behind it. finish() after the abandoned switch returns the first page's
+   own result; reading on sends the follow-up with cookie 01 a second time and hands out the THIRD page's entry - the second page is lost *)
+Lemma c10_refuted_F48 :
+  let p1 := mkPage [Entry 1] (mkRes 0 [CPaged 0 [x01]]) in let p2 := mkPage [Entry 2] (mkRes 0 [CPaged 0 [x02]]) in let p3 := mkPage [Entry 3] (mkRes 0 [CPaged 0 []]) in
+  match start 7 [] 1 [p1; p2; p3] with None => False | Some s0 =>
+    let s1 := fst (next prepaired 5 s0) in                       (* Entry 1 handed over; the page's final message is next *)
+    match abandon_at_switch false s1, abandon_at_switch true s1 with
+    | Some bad, Some good =>
+        snd (fst (finish bad)) = mkRes 0 [CPaged 0 [x01]] /\ snd (next_after_abandon bad) = NSome (Entry 3) /\
+        wire (fst (next_after_abandon bad)) = [mkReq 7 [CPaged 1 []]; mkReq 7 [CPaged 1 [x01]]; mkReq 7 [CPaged 1 [x01]]] /\
+        snd (fst (finish good)) = cancelled /\ snd (next_after_abandon good) = NNone /\ wire (fst (next_after_abandon good)) = [mkReq 7 [CPaged 1 []]; mkReq 7 [CPaged 1 [x01]]]
+    | _, _ => False end end.
+Proof. vm_compute. repeat split. Qed.
 Print Assumptions c16.
+Print Assumptions c10_abandoned_switch.
 Print Assumptions c10_paged_early_finish.
 Print Assumptions c16_behind_entries_only.
 Print Assumptions c16_final_keeps_other_controls.
